@@ -55,7 +55,7 @@ CHECKS = {
    category="model_checking",
    text="Kernel level: SAT-decided for every pair of raw-parts values of the same type (4 shapes clean, 2 shapes dirty): == <=> same denoted element, cmp Equal <=> ==, antisymmetry, partial_cmp = Some(cmp), equal values feed identical bytes to any Hasher. Holds on clean buffers; on dirty buffers (sub-value extraction, machine output) the tree violates it: open known finding C11/eq-raw-bytes, reported as KNOWN-FINDING.",
    design_ref="DESIGN.md §2 C10/C11, §4 S1",
-   note="trusted: as C10. Outside: histories needing the compact decoder or prune, transitivity over triples, other shapes"),
+   note="trusted: as C10. Thorough adds transitivity of == and cmp over triples of clean values (2 shapes, k11_trans_*). Outside: histories needing the compact decoder or prune, other shapes"),
 }
 
 NOT_APPLICABLE = {
